@@ -452,6 +452,9 @@ func (ps *specParser) primary() SExpr {
 			return &SLit{"bool", t.s}
 		case "nil":
 			return &SLit{"nil", ""}
+		case "forall", "exists":
+			ps.p--
+			return ps.expr()
 		}
 		return &SIdent{t.s}
 	case "op":
